@@ -154,6 +154,8 @@ pub async fn worker(
 			let n_errors = errors.clone();
 			let n_events = events.clone();
 			watcher_type = config_watcher;
+			// the new watcher starts with nothing registered
+			pathset.clear();
 			watcher = config_watcher
 				.create(move |nev: Result<notify::Event, notify::Error>| {
 					trace!(event = ?nev, "receiving possible event from watcher");
